@@ -123,6 +123,32 @@ pub struct FixtureDatabase {
     pub file_analysis_locks: Arc<DashMap<PathBuf, Arc<std::sync::Mutex<()>>>>,
 }
 
+/// Verification hook (off unless built with --cfg pytest_language_server_verif): lets an
+/// external controlled scheduler observe the per-file analysis lock, which is a plain
+/// `std::sync::Mutex` it could not otherwise intercept.
+#[cfg(pytest_language_server_verif)]
+pub mod verif_hooks {
+    use std::sync::OnceLock;
+
+    /// (lock address, true = about to acquire / false = released)
+    pub type LockHook = fn(usize, bool);
+    pub static FILE_LOCK_HOOK: OnceLock<LockHook> = OnceLock::new();
+
+    pub fn file_lock_event(addr: usize, acquire: bool) {
+        if let Some(hook) = FILE_LOCK_HOOK.get() {
+            hook(addr, acquire);
+        }
+    }
+
+    /// Reports the release when dropped (declare it after the real guard).
+    pub struct ReleaseOnDrop(pub usize);
+    impl Drop for ReleaseOnDrop {
+        fn drop(&mut self) {
+            file_lock_event(self.0, false);
+        }
+    }
+}
+
 impl Default for FixtureDatabase {
     fn default() -> Self {
         Self::new()
